@@ -17,6 +17,11 @@ def run(tier, replay):
     try:
         th = tier == "thorough"
         m = ec.run_profile(chk, binp, "c05", 320 if not th else 1000, sd, thorough=th)
+        # template family: first-time discovery of a leaf that is in flight for a sibling; every step of every build is a cancellation point
+        mtpl = ec.run_profile(chk, binp, "c05", 8, sd, thorough=False, extra=["--cancel-points", "1000000"], base_offset=1000000, label="c05tpl")
+        for k in ("runs", "builds", "cancelled_builds", "cancel_points"):
+            m[k] = m.get(k, 0) + mtpl.get(k, 0)
+        chk.cov["template_runs"] = int(mtpl.get("runs", 0))
         mt = ec.run_profile(chk, tb, "c05t", 1600 if not th else 8000, sd, env=TSAN, label="c05t")
         ec.fold(chk, m, KEYS)
         chk.cov["threaded_runs_tsan"] = int(mt.get("runs", 0))
@@ -28,7 +33,7 @@ def run(tier, replay):
         chk.cov["rule"] = ("base history run once with deferred completions to count the observable steps (callbacks + hook notifications) of every build; then the "
                            "whole history is re-run with cancelBuild() issued from inside step s of build b (quick: 4 sampled steps per build, thorough: every step), "
                            "continuing on the same engine after resetForBuild() and on a new engine over the same database, each also in a variant in which the external inputs first go back to what they were at the last successful build and the same key is built once more (A-B-A around the cancellation); all monitors stay on for the "
-                           "continuation (M-value vs from-scratch, M-justify, M-proto, M-db, no callback after the engine observed the cancellation, no task alive "
+                           "continuation; a small template family (a key discovers a leaf that is in flight for a sibling and was stored before the key ever ran) is run with every step as cancellation point and all four continuations (M-value vs from-scratch, M-justify, M-proto, M-db, no callback after the engine observed the cancellation, no task alive "
                            "after build() returns); plus threaded runs under TSan with cancellation from a foreign thread at a random time; non-trivial as C01")
         chk.assumptions = ["cancellation instants inside an engine phase are reached only by the threaded runs, statistically"]
     finally:
